@@ -197,8 +197,8 @@ func arrange(t *rapid.T, s *hx.Schema, o hx.SDLOpts, label string, allowExtend b
 		mk(hx.DirDefSDL(d, o), "@"+d.Name, "", n)
 	}
 	if s.Roots != nil {
-		base := &hx.Schema{Roots: map[string]string{}, RootDirs: s.RootDirs}
-		ext := &hx.Schema{Roots: map[string]string{}}
+		base := &hx.Schema{Roots: map[string]string{}, RootDirs: s.RootDirs, RootDescs: s.RootDescs}
+		ext := &hx.Schema{Roots: map[string]string{}, RootDescs: s.RootDescs}
 		for op, tn := range s.Roots {
 			if op != "query" && allowExtend && rapid.IntRange(0, 2).Draw(t, label+"schemaExt"+op) == 0 {
 				ext.Roots[op] = tn
